@@ -14,7 +14,7 @@ RULE = ('Hypothesis-generated netlists x {c_reuse} x {strip_forks} x capacities 
         'Oracle: s and the whole signal memory (scratch slots excluded) are bit-identical to list-order execution. Structural predicate on every '
         'generated simulator: every operand of a level-L op is the zero slot, an interface input or written in a level < L (stems found by walking '
         'the circuit), no two ops of a level write overlapping regions, no region written in level L overlaps a region read in level L. '
-        'non-trivial: some level has >= 3 ops and memory was really reused (c_len smaller than without reuse); distinct by SHA-1 of the case. Some connected gates are ports as well (test points appended to io_nodes).')
+        'non-trivial: some level has >= 3 ops and memory was really reused (c_len smaller than without reuse); distinct by SHA-1 of the case. Some connected gates are ports as well (test points appended to io_nodes). In a third of the cases a simulator was built on the circuit while one operand line was still wired to a primary input; the line is then re-wired in place (node and line counts unchanged).')
 ASSUMPTIONS = ['each mock-GPU thread runs atomically (finer interleavings are represented by the structural predicate: disjoint write sets, reads '
                'only from earlier levels)', 'no numba/CUDA: kernels are the Python source']
 
@@ -39,7 +39,8 @@ def cases(draw, tier):
                 c_reuse=draw(st.sampled_from([True, True, False])), strip_forks=draw(st.booleans()),
                 keys=draw(st.lists(st.integers(0, 1000), min_size=16, max_size=16)),
                 tkeys=draw(st.lists(st.integers(0, 1000), min_size=32, max_size=32)), nperm=draw(st.integers(1, 3)),
-                tps=draw(st.one_of(st.just([]), st.just([]), st.lists(st.integers(0, 400), min_size=1, max_size=3))))       # gates that are ports as well (test points)
+                tps=draw(st.one_of(st.just([]), st.just([]), st.lists(st.integers(0, 400), min_size=1, max_size=3))),       # gates that are ports as well (test points)
+                warm=draw(st.one_of(st.just(0), st.just(0), st.integers(1, 1000))))      # a simulator was built on the circuit while one line was still wired elsewhere
 
 
 class OrderedLauncher:
@@ -180,6 +181,24 @@ def prop(case):
         if cand:
             tps.append(cand[t % len(cand)])
             b.c.io_nodes.append(tps[-1])
+    warmed = False
+    if case.get('warm'):
+        # history: the circuit was simulated once while one operand line still came from a primary input; then that line was re-wired in place to
+        # its final driver (node and line counts unchanged). The schedule of a simulator built now must be that of the circuit as it is now.
+        from kyupy.circuit import Line
+        srcs = [n for n in b.c.forks.values() if n.ins and n.ins[0] is not None and any(n.ins[0].driver is p for p in b.pi)] + \
+               [p for p in b.pi if p.kind == '__fork__']
+        cand = [l for l in b.c.lines if any(l.reader is g for g in b.g) and not any(l.driver is x for x in srcs) and not any(l.driver is p for p in b.pi)]
+        if srcs and cand:
+            l = cand[case['warm'] % len(cand)]
+            src = srcs[case['warm'] % len(srcs)]
+            drv, dpin, rd, rpin = l.driver, l.driver_pin, l.reader, l.reader_pin
+            l.remove()
+            tmp = Line(b.c, src, (rd, rpin))
+            make_sim(case, b)
+            tmp.remove()
+            Line(b.c, drv if drv.kind == '__fork__' else (drv, dpin), (rd, rpin))
+            warmed = True
     ref = make_sim(case, b)
     maxops = structural(ref, b, case) if not __import__('os').environ.get('VERIF_C07_NOSTRUCT') else 3
     s0, c0 = run_sim(case, b, ref)
@@ -226,6 +245,7 @@ def prop(case):
     if case['strip_forks']: labels.append('strip_forks')
     if len(nl['g']) >= 100: labels.append('>=100_gates')
     if tps: labels.append('gate_as_port')
+    if warmed: labels.append('simulated_before_an_in_place_rewire')
     return Obs(maxops >= 3 and reused, labels, checks=nperms + 1)
 
 
